@@ -25,8 +25,8 @@
 
   `ResultSoFar` decides in integers (its float percentages are only logged); the distribution
   percentages are the already converted integers `int64(percentage * 10000)`.
-  Amounts are unbounded integers.  Where Go panics (division by `len(validatorList) = 0`) the
-  model returns `Err.panicDivZero`, which `step` reports as `Res.crash`.
+  Amounts are unbounded integers.  No modelled path can panic (`distributeFunds` refuses an empty
+  validator list).
   Core-only: linked into the driver executable.
 -/
 import OLP.Base.Assoc
@@ -179,11 +179,10 @@ inductive Err where
   | statusNotVoting | votingHeightReached | gettingValidatorList | addingVoteToVoteStore
   | peekingVoteResult | unmatchedProposer | withdrawNotEligible | noSuchFunder
   | statusNotCompleted | unableToQueryVoteResult | votingTBD | finalizeConfigUpdateFailed
-  | panicDivZero                  -- `Divide(len(validatorList))` with no validator record
   deriving DecidableEq, Repr
 
 inductive Res where
-  | ok | err (e : Err) | crash
+  | ok | err (e : Err)
   deriving DecidableEq, Repr
 
 /-! ### items -/
@@ -565,14 +564,15 @@ def payouts (b : L) (vs : List (Addr × ValRec)) (proposer bounty exec : Addr) (
   (addTo (addTo (addTo (addTo (creditAll b vs per) proposer pr) bounty bo) exec ex) poolAcc tracker,
    bu + (vAmt - per * (vs.length : Int)))
 
-/-- `distributeFunds`: the new state and whether `DeleteAllFunds` returned an error -/
-def distribute (s : St) (pid : PID) (p : Proposal) (d : Dist) : Except Err (St × Bool) :=
+/-- `distributeFunds`: `none` = refused before anything is written (no validator record:
+    `ErrGettingValidatorList`); otherwise the new state and whether `DeleteAllFunds` returned an error -/
+def distribute (s : St) (pid : PID) (p : Proposal) (d : Dist) : Option (St × Bool) :=
   let it := s.item pid
   let vs := cvals s.vals
-  if vs.isEmpty then .error .panicDivZero
+  if vs.isEmpty then none
   else
     let pay := payouts s.bal vs p.proposer s.opts.bountyAddr (s.opts.byType p.ptype).execAddr it.total d
-    .ok ({ (s.setItem pid it.deleteAllFunds.1) with bal := pay.1, burned := s.burned + pay.2 }, it.deleteAllFunds.2)
+    some ({ (s.setItem pid it.deleteAllFunds.1) with bal := pay.1, burned := s.burned + pay.2 }, it.deleteAllFunds.2)
 
 /-- `setToFinalizeFailed`: Set in FINALIZEFAILED, Delete from PASSED (whatever store it came from) -/
 def toFinFailed (s : St) (pid : PID) (p : Proposal) : St :=
@@ -582,12 +582,23 @@ def toFinFailed (s : St) (pid : PID) (p : Proposal) : St :=
 def toFinalized (s : St) (pid : PID) (p : Proposal) (src : Store) : St :=
   s.setItem pid (((s.item pid).set .finalized p).del src)
 
-/-- distribution then the final move; a distribution error still returns success, with the
-    payouts made so far kept (here: all of them, the only error source is `DeleteAllFunds`) -/
-def distributeAndMove (s : St) (pid : PID) (p : Proposal) (d : Dist) (src : Store) : Except Err St :=
+/-- distribution then the final move; a distribution error still returns success: the proposal
+    is marked finalise-failed, with nothing paid (refused distribution) or with all payouts kept
+    (`DeleteAllFunds` error, the only other error source) -/
+def distributeAndMove (s : St) (pid : PID) (p : Proposal) (d : Dist) (src : Store) : St :=
   match distribute s pid p d with
-  | .error e => .error e
-  | .ok (s1, bad) => if bad then .ok (toFinFailed s1 pid p) else .ok (toFinalized s1 pid p src)
+  | none => toFinFailed s pid p
+  | some (s1, bad) => if bad then toFinFailed s1 pid p else toFinalized s1 pid p src
+
+/-- the result the finalisation acts on: an expired proposal (outcome insufficient votes) whose
+    tally is undecided, or that has no vote records at all, counts as failed; otherwise an
+    undecided tally / missing records are errors -/
+def finalResult (r : Option VoteResult) (p : Proposal) : Except Err VoteResult :=
+  match r with
+  | none => if p.outcome = .insufficientVotes then .ok .failed else .error .unableToQueryVoteResult
+  | some .tbd => if p.outcome = .insufficientVotes then .ok .failed else .error .votingTBD
+  | some .passed => .ok .passed
+  | some .failed => .ok .failed
 
 /-- `runFinalizeProposal` -/
 def runFinalize (E : Env) (s : St) (pid : PID) : Except Err St :=
@@ -600,26 +611,24 @@ def runFinalize (E : Env) (s : St) (pid : PID) : Except Err St :=
     | some p =>
       if p.status ≠ .completed then .error .statusNotCompleted
       else
-        match resultSoFar it.votes p.passPercent with
-        | none => .error .unableToQueryVoteResult
-        | some .tbd => .error .votingTBD
-        | some .passed =>
-          let o := s.opts.byType p.ptype
-          if p.ptype = .config then
-            match parseCfg p.cfg with
-            | .malformed => .error .invalidOptions
-            | .unknownKey => .error .finalizeConfigUpdateFailed
-            | .upd k v =>
-              match applyUpd E s.opts k v s.height with
-              | none => .ok (toFinFailed s pid p)
-              | some opts' =>
-                -- the distribution reads the option object fetched before the update
-                match distributeAndMove s pid p o.passedDist .passed with
-                | .error e => .error e
-                | .ok s1 => .ok { s1 with opts := opts', applied := s.applied ++ [pid] }
-          else distributeAndMove s pid p o.passedDist .passed
-        | some .failed =>
-          distributeAndMove s pid p (s.opts.byType p.ptype).failedDist .failed
+        match finalResult (resultSoFar it.votes p.passPercent) p with
+        | .error e => .error e
+        | .ok .tbd => .error .votingTBD
+        | .ok .passed =>
+            let o := s.opts.byType p.ptype
+            if p.ptype = .config then
+              match parseCfg p.cfg with
+              | .malformed => .error .invalidOptions
+              | .unknownKey => .error .finalizeConfigUpdateFailed
+              | .upd k v =>
+                match applyUpd E s.opts k v s.height with
+                | none => .ok (toFinFailed s pid p)
+                | some opts' =>
+                  -- the distribution reads the option object fetched before the update
+                  .ok { (distributeAndMove s pid p o.passedDist .passed) with opts := opts', applied := s.applied ++ [pid] }
+            else .ok (distributeAndMove s pid p o.passedDist .passed)
+        | .ok .failed =>
+            .ok (distributeAndMove s pid p (s.opts.byType p.ptype).failedDist .failed)
 
 /-! ### transactions, block hooks, histories -/
 
@@ -670,7 +679,7 @@ def commitVals (l : List (Addr × ValRec)) : List (Addr × ValRec) := l.map (fun
 def Item.commit (it : Item) : Item := { it with votes := commitVotes it.votes, funds := commitFunds it.funds }
 
 /-- `AddInternalTX`: expiry for VOTING proposals whose deadline is below the height, finalisation
-    for completed-yes in PASSED and completed-no in FAILED; the queue store iterates in key order -/
+    for completed-yes in PASSED, completed-no and expired (insufficient votes) in FAILED; the queue store iterates in key order -/
 def wantsExpire (h : Int) (it : Item) : Bool :=
   match it.active with
   | some p => p.status = .voting ∧ p.votingDeadline < h
@@ -681,7 +690,7 @@ def wantsFinalize (it : Item) : Bool :=
    | some p => decide (p.status = .completed ∧ p.outcome = .completedYes)
    | none => false) ||
   (match it.failed with
-   | some p => decide (p.status = .completed ∧ p.outcome = .completedNo)
+   | some p => decide (p.status = .completed ∧ (p.outcome = .completedNo ∨ p.outcome = .insufficientVotes))
    | none => false)
 
 /-- insertion sort by key (structural recursion, so that concrete histories evaluate in the kernel) -/
@@ -698,36 +707,28 @@ def beginBlock (s : St) (h : Int) : St :=
            qFinalize := sortPids ((items.filter (fun kv => wantsFinalize kv.2)).map (·.1)) }
 
 /-- one internal transaction: `ProcessDeliver` only (no `Validate`, no fee); a failure discards
-    the session; `none` = the node panicked -/
-def internal (E : Env) (s : Option St) (op : Op) : Option St :=
-  match s with
-  | none => none
-  | some s =>
-    match runTx E s op with
-    | .ok s' => some s'
-    | .error .panicDivZero => none
-    | .error _ => some s
+    the session -/
+def internal (E : Env) (s : St) (op : Op) : St :=
+  match runTx E s op with
+  | .ok s' => s'
+  | .error _ => s
 
 /-- `ExpireProposals` then `FinalizeProposals`, then both queues are cleared -/
-def endBlock (E : Env) (s : St) : Option St :=
-  let s1 := s.qExpire.foldl (fun acc pid => internal E acc (.expire pid)) (some s)
+def endBlock (E : Env) (s : St) : St :=
+  let s1 := s.qExpire.foldl (fun acc pid => internal E acc (.expire pid)) s
   let s2 := s.qFinalize.foldl (fun acc pid => internal E acc (.finalize pid)) s1
-  s2.map (fun s => { s with qExpire := [], qFinalize := [] })
+  { s2 with qExpire := [], qFinalize := [] }
 
-/-- a delivered transaction: a failure discards the session, a panic closes the node -/
+/-- a delivered transaction: a failure discards the session -/
 def txStep (E : Env) (s : St) (op : Op) : St × Res :=
   match runTx E s op with
   | .ok s' => (s', .ok)
-  | .error .panicDivZero => (s, .crash)
   | .error e => (s, .err e)
 
 def step (E : Env) (s : St) (op : Op) : St × Res :=
   match op with
   | .beginBlock h => (beginBlock s h, .ok)
-  | .endBlock =>
-    match endBlock E s with
-    | some s' => (s', .ok)
-    | none => (s, .crash)
+  | .endBlock => (endBlock E s, .ok)
   | .setVals vals => ({ s with vals := vals }, .ok)
   | .setBal a v => ({ s with bal := setBal s.bal a v }, .ok)
   | op => txStep E s op
